@@ -1,20 +1,21 @@
 #!/bin/bash
 # Confirms sub-agent mutants in a scratch worktree of /repo HEAD recreated at /tmp/wt/<ID>:
+# (WTROOT/OUTROOT override the roots; default /tmp/wt and /tmp/wtout)
 #   for each mutantN: applies, full test suite must give 122 passed, demo must fail; reverted: demo must pass.
 # usage: tools_confirm_mutants.sh ID...     results -> /tmp/wtout/<ID>/confirm.txt
 for ID in "$@"; do
-  WT=/tmp/wt/$ID; OUT=/tmp/wtout/$ID
+  WT=${WTROOT:-/tmp/wt}/$ID; OUT=${OUTROOT:-/tmp/wtout}/$ID
   git -C /repo worktree remove --force $WT 2>/dev/null
   git -C /repo worktree add --detach $WT HEAD >/dev/null 2>&1 || { echo "$ID: cannot create worktree"; continue; }
-  cp -r /repo/target $WT/target 2>/dev/null
+  cp -a ${TARGETSRC:-/repo/target} $WT/target 2>/dev/null
   : > $OUT/confirm.txt
   for N in 1 2; do
     P=$OUT/mutant$N.patch; [ -f $P ] || continue
     cd $WT && git reset -q --hard HEAD && git clean -fdq -e target
     DEMO=$(ls $OUT/mutant${N}_demo.rs 2>/dev/null); DEMOSH=$(ls $OUT/mutant${N}_demo.sh 2>/dev/null)
     run_demo() {
-      if [ -n "$DEMO" ]; then cp $DEMO $WT/tests/verif_demo_${ID}_$N.rs; (cd $WT && cargo test --offline --test verif_demo_${ID}_$N >/tmp/wtout/$ID/demo_$N.log 2>&1); echo $?
-      elif [ -n "$DEMOSH" ]; then (cd $WT && bash $DEMOSH >/tmp/wtout/$ID/demo_$N.log 2>&1); echo $?
+      if [ -n "$DEMO" ]; then cp $DEMO $WT/tests/verif_demo_${ID}_$N.rs; (cd $WT && cargo test --offline --test verif_demo_${ID}_$N >$OUT/demo_$N.log 2>&1); echo $?
+      elif [ -n "$DEMOSH" ]; then (cd $WT && bash $DEMOSH $WT >$OUT/demo_$N.log 2>&1); echo $?
       else echo nodemo; fi
     }
     PRIST=$(run_demo)
